@@ -8,6 +8,7 @@ var Harnesses = map[string]func(){
 	"AppSmoke":      AppSmoke,
 	"TabSmoke":      TabSmoke,
 	"Cli":           Cli,
+	"Main":          Main,
 	"CliRepeat":     CliRepeat,
 	"Clean":         Clean,
 }
